@@ -65,6 +65,8 @@ structure Obs where
   /-- media was received from the session BEFORE the response to this request (on the WSP data
       channel, whose order against the control channel is not defined: at any time during it) -/
   media : Bool := false
+  /-- not a request: the client sent an interleaved (`$`) frame on the connection -/
+  frame : Bool := false
   deriving Repr, Inhabited
 
 /-- the monitor's memory: the phase and the resources seen after the previous request -/
@@ -164,11 +166,26 @@ def mstep (f : Flavour) (st : MState) (o : Obs) : Except String MState :=
     is attached while the PLAY is handled and the data channel is a connection of its own, so there
     media may also accompany the PLAY that is answered 200.) -/
 def mediaOk (f : Flavour) (st : MState) (o : Obs) : Bool :=
-  !o.media || st.phase == .playing || (f == .wsp && !o.hangup && o.method == .play && o.code == 200)
+  !o.media || st.phase == .playing || (f == .wsp && !o.hangup && !o.frame && o.method == .play && o.code == 200)
 
-/-- One observation against the automaton, media included. -/
+/-- A frame sent by the client is not a request (RFC 2326 §10.12: RTCP travels both ways on the
+    interleaved channels): it is not answered, it does not cost the connection, and it neither gives
+    nor takes a resource. -/
+def mframe (st : MState) (o : Obs) : Except String MState :=
+  if st.phase == .closed then
+    if o.nresp == 0 then .ok st else .error "response-after-close"
+  else if o.nresp != 0 then .error "frame-answered"
+  else if o.closed then .error "connection-lost"
+  else if o.consumers != st.consumers || o.published != st.published then .error "frame-not-inert"
+  else .ok st
+
+/-- a client frame or a request / hang-up -/
+def mcore (f : Flavour) (st : MState) (o : Obs) : Except String MState :=
+  if o.frame then mframe st o else mstep f st o
+
+/-- One observation against the automaton, media and client frames included. -/
 def mguard (f : Flavour) (st : MState) (o : Obs) : Except String MState :=
-  if !mediaOk f st o then .error "media-before-play" else mstep f st o
+  if !mediaOk f st o then .error "media-before-play" else mcore f st o
 
 /-- run the monitor over a whole observed dialogue -/
 def mrun (f : Flavour) : MState → List Obs → Except String MState
